@@ -55,21 +55,26 @@ const (
 )
 
 type runner struct {
-	env                 *core.Env
-	res                 *core.Result // nil when replaying / minimising
-	b                   *body
-	ch                  *chooser
-	mode                int
-	root                string
-	imgSeq              int
-	opsHash             uint64
-	runHash             uint64
-	sig                 string
-	msg                 string
-	trace               []string
-	verbose             bool
-	lastOp              [2]int // last op index (per level) an image was judged in
-	noLevel2, noCorrupt bool
+	env                          *core.Env
+	res                          *core.Result // nil when replaying / minimising
+	b                            *body
+	ch                           *chooser
+	mode                         int
+	root                         string
+	imgSeq                       int
+	opsHash                      uint64
+	runHash                      uint64
+	sig                          string
+	knownSig                     string
+	knownMsg                     string
+	msg                          string
+	trace                        []string
+	verbose                      bool
+	lastOp                       [2]int // last op index (per level) an image was judged in
+	noLevel2, noCorrupt, noCrash bool
+	curLevel, failLevel          int     // session level being judged / at the violation
+	lastCor                      [2]byte // old and new value of the last corrupted byte
+	searchCor                    *[2]byte
 }
 
 var scratchBase = fmt.Sprintf("/dev/shm/verif-e4-%d", os.Getpid())
@@ -84,7 +89,19 @@ func (r *runner) fail(sig, format string, a ...any) {
 	if r.sig != "" {
 		return
 	}
+	if r.res != nil && r.env != nil {
+		if _, ok := r.env.IsKnown(sig); ok {
+			// a listed finding: note it, keep exploring the rest of the run
+			// (the run's first known hit is handed to the worker loop at the end)
+			if r.knownSig == "" {
+				r.knownSig, r.knownMsg = sig, fmt.Sprintf(format, a...)
+			}
+			r.count("known-hits:"+sig, 1)
+			return
+		}
+	}
 	r.sig = sig
+	r.failLevel = r.curLevel
 	r.msg = fmt.Sprintf(format, a...)
 	r.logf("VIOLATION %s: %s", sig, r.msg)
 }
